@@ -66,6 +66,10 @@ type Case struct {
 	Rev   string `json:"rev,omitempty"`   // sort: reverse= "true" | "false" | "" (omitted)
 	Class string `json:"class,omitempty"` // generator class (distribution)
 	GM    bool   `json:"gm,omitempty"`    // the Go copy of the specification disagrees with Obs
+	// format cases sampled for Coq: what the interpreter's own str() and repr() print for every
+	// positional argument and then every keyword value, in order -- two entries (hex) per value.
+	// The Coq model and specification of string.format take these texts as their str_of / repr_of.
+	Texts []string `json:"texts,omitempty"`
 }
 
 func vNone() V             { return V{T: "none"} }
@@ -442,8 +446,11 @@ func (s *sink) do(c Case) {
 		pe = s.pyEvery[""]
 	}
 	// deterministic stride with a per-class random phase
-	if (c.Op == "call" && c.Name == "format") || (c.Op == "bin" && c.Name == "%") {
+	if c.Op == "bin" && c.Name == "%" {
 		ce = 0 // no Coq model: Go copy of the specification and CPython
+	}
+	if c.Op == "call" && c.Name == "format" && c.X.T != "str" {
+		ce = 0
 	}
 	if c.Op == "builtin" && (c.Name == "list" || c.Name == "tuple") {
 		ce = 0 // no Coq model: Go copy of the specification and CPython
@@ -454,12 +461,52 @@ func (s *sink) do(c Case) {
 	if ce > 0 && (n+phase(c.Class, ce))%ce == 0 {
 		c.K = "case"
 		s.coqN++
+		if c.Op == "call" && c.Name == "format" {
+			if !observeTexts(&c) {
+				ce = 0
+				c.K = "py" // a value whose str / repr could not be observed: CPython and the Go copy only
+				s.coqN--
+				s.pyN++
+			}
+		}
 		hx.Emit(c)
 	} else if pe > 0 && (n+phase(c.Class, pe))%pe == 0 {
 		c.K = "py"
 		s.pyN++
 		hx.Emit(c)
 	}
+}
+
+// observeTexts records, for every argument of a format call (positional, then
+// keyword values), the text of str(v) and of repr(v) as the interpreter's value
+// printer produces them: repr(v) is Value.String(); str(v) is, as doc/spec.md
+// defines it, v itself for a string and repr(v) for everything else.  (The
+// built-in function str additionally decodes a bytes value -- str(b"by") is
+// "by" -- which spec.md's definition of str does not say; how values print is
+// property C15's subject, so the texts are taken from the printer, not from
+// string_format, and are parameters of the Coq model and specification.)
+func observeTexts(c *Case) (ok bool) {
+	defer func() {
+		if e := recover(); e != nil {
+			c.Texts, ok = nil, false
+		}
+	}()
+	var vals []V
+	vals = append(vals, c.Args...)
+	for i := 1; i < len(c.Kw); i += 2 {
+		vals = append(vals, c.Kw[i])
+	}
+	c.Texts = []string{}
+	for _, v := range vals {
+		sv := toStarlark(v)
+		repr := sv.String()
+		str := repr
+		if t, isStr := starlark.AsString(sv); isStr {
+			str = t
+		}
+		c.Texts = append(c.Texts, hex.EncodeToString([]byte(str)), hex.EncodeToString([]byte(repr)))
+	}
+	return true
 }
 
 var phaseSeed uint64
